@@ -1,7 +1,8 @@
 \* probe: one edit at a component of a cut block, of an uncut block, and at a cut block; every state and edge emitted; decides which designs (LeafVolCut, ScaleRaises) the code implements
 CONSTANTS NLeaf = 6  NBlk = 3  NAsm = 2  MaxLevel = 2  LMax = 20000  VMax = 100
 CONSTANTS Parent <- TCoreParent  Area <- TCoreArea  Height <- TCoreHeight  Sym <- TCoreSym  W <- Wt  N0 <- TCoreN0  H0 <- TCoreH0
-CONSTANTS Targets <- TCoreTargetsProbe  Vals <- ValsQ  Facs <- FacsQ  Masses <- MassesQ  Maps <- MapsQ  FracMaps <- FracMapsQ
+CONSTANTS Targets <- TCoreTargetsProbe  Vals <- ValsQ  Facs <- FacsQ  Masses <- MassesQ  Maps <- MapsQ  FracMaps <- FracMapsQ  AddMaps <- AddMapsQ  SetMaps <- SetMapsQ
+CONSTANTS HDom <- HDom123  HTargets <- None  HVals <- HDom123
 CONSTANTS LeafVolCut <- LeafVolCutEnv  ScaleRaises <- ScaleRaisesEnv
 INIT InitB
 NEXT NextB
